@@ -87,6 +87,9 @@ def gen_plan(wl, fr, idx):
     plan['n_jobs'] = wl.choice(sorted({1, 2, 3, ntasks, ntasks + 1}) + [-1])
     if wl.random() < 0.2:
         plan['array_variant'] = wl.choice(('fortran', 'strided', 'f32'))
+    plan['positional'] = wl.random() < 0.3
+    plan['f_range_list'] = wl.random() < 0.2
+    plan['fs_float'] = wl.random() < 0.2
     plan['progress'] = wl.choice((None, None, 'tqdm'))
     plan['tqdm'] = wl.choice(('absent', 'stub'))
     plan['sim'] = gen_sim_cfg(fr, ntasks)
@@ -160,6 +163,10 @@ def execute(plan, tape):
     res = Result()
     band = plan['band']
     fs, f_range = band['fs'], tuple(band['f_range'])
+    if plan.get('f_range_list'):
+        f_range = list(f_range)
+    if plan.get('fs_float'):
+        fs = float(fs)
     n0, n1 = plan['shape']
     sigs = _variant(np.array([[build_signal(s, band) for s in row] for row in plan['sigs']]), plan.get('array_variant'))
     axis = _axis(plan)
@@ -204,9 +211,13 @@ def execute(plan, tape):
             try:
                 if plan['entry'] == 'function':
                     from bycycle.group import compute_features_3d
-                    out = compute_features_3d(sigs, fs, f_range, compute_features_kwargs=live_options(plan),
-                                              axis=axis, return_samples=plan['return_samples'],
-                                              n_jobs=plan['n_jobs'], progress=plan['progress'])
+                    if plan.get('positional'):
+                        out = compute_features_3d(sigs, fs, f_range, live_options(plan), axis,
+                                                  plan['return_samples'], plan['n_jobs'], plan['progress'])
+                    else:
+                        out = compute_features_3d(sigs, fs, f_range, compute_features_kwargs=live_options(plan),
+                                                  axis=axis, return_samples=plan['return_samples'],
+                                                  n_jobs=plan['n_jobs'], progress=plan['progress'])
                 else:
                     from bycycle.objs import BycycleGroup
                     c = ref.live(plan['ctor'])
@@ -218,7 +229,10 @@ def execute(plan, tape):
                         # the object was used before: an earlier fit on other data of the same shape
                         bg.fit(-sigs[::-1, ::-1] * 0.5, fs, f_range, axis=plan['prefit_axis'] if plan['prefit_axis'] != '01' else (0, 1),
                                n_jobs=1, progress=None)
-                    bg.fit(sigs, fs, f_range, axis=axis, n_jobs=plan['n_jobs'], progress=plan['progress'])
+                    if plan.get('positional'):
+                        bg.fit(sigs, fs, f_range, axis, plan['n_jobs'], plan['progress'])
+                    else:
+                        bg.fit(sigs, fs, f_range, axis=axis, n_jobs=plan['n_jobs'], progress=plan['progress'])
                     out = bg.df_features
             except SimDeadlock as e:
                 res.violate('no-return', 'deadlock', 'the call blocks forever: %s' % e)
@@ -415,7 +429,8 @@ def shrink(plan):
                 yield p
     for key, val in (('n_jobs', 1), ('n_jobs', 2), ('progress', None), ('tqdm', 'absent'),
                      ('return_samples', True), ('prefit', False), ('alias_equal', False),
-                     ('array_variant', None)):
+                     ('array_variant', None), ('positional', False), ('f_range_list', False),
+                     ('fs_float', False)):
         if key in plan and plan[key] != val:
             p = copy.deepcopy(plan)
             p[key] = val
